@@ -1139,6 +1139,74 @@ fn c10(_tier: &str, seed: u64) -> Report {
     rep
 }
 
+// ------------------------------------------------------------------------------------------ C15
+fn c15_codec<C: Oracle>(rep: &mut Report, rng: &mut Rng, rounds: usize) {
+    use bio_seq::translation::{CodonTable, PartialTranslationTable, TranslationError};
+    for round in 0..rounds {
+        // a random finite map from codons (length 1..4) to amino symbols with 0,1,2,3+ preimages
+        let nkeys = rng.below(9);
+        let mut model: Vec<(Vec<usize>, usize)> = vec![];
+        for _ in 0..nkeys {
+            let len = 1 + rng.below(4);
+            let rows = rand_rows::<C>(rng, len);
+            let canon: Vec<usize> = rows.iter().map(|&r| C::expect_ascii(C::entry(r).ch).unwrap()).collect();
+            let a = rng.below(5); // few amino symbols so that collisions happen
+            if !model.iter().any(|(k, _)| *k == canon) {
+                model.push((canon, a));
+            }
+        }
+        // repeated construction: std HashMap uses a fresh random state each time => different iteration orders
+        for rep_i in 0..3 {
+            let mut m: HashMap<Seq<C>, Amino> = HashMap::new();
+            for (k, a) in &model {
+                m.insert(build::<C>(k), <Amino as Oracle>::entry(*a).sym);
+            }
+            let t: CodonTable<C, Amino> = CodonTable::from_map(m);
+            rep.case(|| format!("{} round={} rep={} keys={}", C::NAME, round, rep_i, model.len()));
+            // forward lookups: keys (as slices at offsets) and non-keys
+            for (k, a) in &model {
+                let off = rng.below(7);
+                with_offset::<C, _>(k, off, &mut Rng::new(rng.next()), |sl| {
+                    let got = t.try_to_amino(sl);
+                    rep.expect(got == Ok(<Amino as Oracle>::entry(*a).sym), "C15 a key codon translates to exactly the mapped amino acid, whatever slice presents it", || format!("{} {} off={} got {:?}", C::NAME, sl, off, got.as_ref().map(|x| x.to_char())));
+                });
+            }
+            for _ in 0..6 {
+                let probe_len = 1 + rng.below(4);
+                let probe = rand_rows::<C>(rng, probe_len);
+                let canon: Vec<usize> = probe.iter().map(|&r| C::expect_ascii(C::entry(r).ch).unwrap()).collect();
+                let want = model.iter().find(|(k, _)| *k == canon).map(|(_, a)| *a);
+                let s = build::<C>(&probe);
+                let got = t.try_to_amino(&s);
+                match want {
+                    Some(a) => rep.expect(got == Ok(<Amino as Oracle>::entry(a).sym), "C15 a key codon translates to exactly the mapped amino acid, whatever slice presents it", || format!("{} {}", C::NAME, s)),
+                    None => rep.expect(matches!(&got, Err(TranslationError::InvalidCodon(c)) if *c == s), "C15 a non-key codon is reported invalid (with that codon)", || format!("{} {} got {:?}", C::NAME, s, got.as_ref().map(|x| x.to_char()))),
+                }
+            }
+            // reverse lookups for every amino symbol
+            for a in 0..<Amino as Oracle>::len() {
+                let sym = <Amino as Oracle>::entry(a).sym;
+                let pre: Vec<&Vec<usize>> = model.iter().filter(|(_, x)| *x == a).map(|(k, _)| k).collect();
+                let got = t.try_to_codon(sym);
+                match pre.len() {
+                    0 => rep.expect(got == Err(TranslationError::InvalidAmino(sym)), "C15 reverse lookup: no preimage -> invalid amino acid", || format!("{} amino={} got {:?}", C::NAME, sym.to_char(), got.as_ref().map(|s| s.to_string()))),
+                    1 => rep.expect(matches!(&got, Ok(s) if rows_of::<C>(s) == *pre[0]), "C15 reverse lookup: the unique codon mapped to the amino acid", || format!("{} amino={} got {:?} want rows {:?}", C::NAME, sym.to_char(), got.as_ref().map(|s| s.to_string()), pre[0])),
+                    _ => rep.expect(got == Err(TranslationError::AmbiguousCodon(sym)), "C15 reverse lookup: two or more preimages -> ambiguity, independent of iteration order", || format!("{} amino={} preimages={} got {:?}", C::NAME, sym.to_char(), pre.len(), got.as_ref().map(|s| s.to_string()))),
+                }
+            }
+        }
+    }
+}
+fn c15(tier: &str, seed: u64) -> Report {
+    let mut rep = Report::new("C15", "random maps with 0..8 codon keys of length 1..4 onto 5 amino symbols (0,1,2,3+ preimages), quick 40 / thorough 400 maps per codec (Dna, Iupac), each constructed 3 times (fresh RandomState = different iteration order), keys presented as slices at offsets 0..6, 6 random probes, all 21 reverse lookups");
+    rep.functions = vec!["std HashMap / RandomState / Borrow lookup on the real crate (cross-check of the HashMap shim contracts)", "From<&SeqSlice<A>> for Seq<A> on the error path"];
+    let mut rng = Rng::new(seed);
+    let rounds = if tier == "thorough" { 400 } else { 40 };
+    c15_codec::<Dna>(&mut rep, &mut rng, rounds);
+    c15_codec::<Iupac>(&mut rep, &mut rng, rounds);
+    rep
+}
+
 pub fn run(prop: &str, tier: &str, seed: u64) -> Report {
     match prop {
         "C01" => c01(tier, seed),
@@ -1152,6 +1220,7 @@ pub fn run(prop: &str, tier: &str, seed: u64) -> Report {
         "C11" => c11(tier, seed),
         "C12" => c12(tier, seed),
         "C13" => c13(tier, seed),
+        "C15" => c15(tier, seed),
         "C19" => c19(tier, seed),
         "C20" => c20(tier, seed),
         _ => Report::new(prop, "no stand-in defined"),
